@@ -16,7 +16,7 @@ VARIABLE steps       \* packet facets: rank of the last environment step in this
 mcvars == <<vars, steps>>
 
 \* output-only variables are not part of the state identity
-View == <<now, params, count, cfg, active, activeIdx, seq, latest, lastInt, pkts, feed, mode,
+View == <<now, params, count, cfg, active, activeIdx, seq, latest, lastInt, pkts, feed, mode, pchg,
           feeBal, bal, dep, totDep, modBal, tssBal, totalFees, steps>>
 
 SymAcct == Permutations(Acct)
@@ -25,6 +25,8 @@ Coins(a, b) == [d \in Denom |-> IF d = FeeDenom THEN b ELSE a]
 
 \* ---- constant substitutions ----
 P_1_2_3_4   == {[minDep |-> Coins(1, 2), base |-> 3, route |-> 4]}
+P_mindep    == {[minDep |-> Coins(1, 2), base |-> 3, route |-> 4], [minDep |-> Coins(0, 2), base |-> 3, route |-> 4],
+                [minDep |-> Coins(2, 1), base |-> 3, route |-> 4]}
 P_fees      == {[minDep |-> Coins(1, 2), base |-> 3, route |-> 4], [minDep |-> Coins(1, 2), base |-> 0, route |-> 2]}
 Dev_pkt     == {[soft |-> 300, hard |-> 3000], [soft |-> 3000, hard |-> 300]}
 Dev_one     == {[soft |-> 300, hard |-> 3000]}
@@ -68,7 +70,7 @@ InitPacket ==
     /\ lastInt = [t \in Tuns |-> Never]
     /\ pkts = [t \in Tuns |-> <<>>]
     /\ feed = [s \in Sig |-> 100]
-    /\ mode = "ok"
+    /\ mode = "ok" /\ pchg = FALSE
     /\ feeBal = [t \in Tuns |-> IF t <= NTun THEN InitFee ELSE 0]
     /\ bal = [a \in Acct |-> [d \in Denom |-> InitBal]]
     /\ dep = [t \in Tuns |-> [a \in Acct |-> IF t <= NTun /\ a = Creator0 THEN params.minDep ELSE Zero]]
@@ -115,6 +117,16 @@ NextLedgerSmall ==
        \/ \E a \in Acct, t \in Tuns : Deposit(a, t, Coins(1, 0), TRUE) \/ Withdraw(a, t, Coins(1, 0), TRUE)
        \/ NextBlock
        \/ \E t \in Tuns, x \in FundSet : Fund(t, x)
+    /\ steps' = steps + 1
+
+\* the ledger under a minimum deposit that governance changes (raised, lowered, a denom dropped)
+NextLedgerPar ==
+    /\ \/ \E a \in Acct, k \in KindSet, iv \in IvSet, S \in SigSets, dv \in Devs, d0 \in AmtSet :
+             CreateTunnel(a, k, iv, S, [s \in Sig |-> dv[s].soft], [s \in Sig |-> dv[s].hard], d0)
+       \/ \E a \in Acct, t \in Tuns : Activate(a, t) \/ Deactivate(a, t)
+       \/ \E a \in Acct, t \in Tuns, amt \in AmtSet : Deposit(a, t, amt, FALSE) \/ Withdraw(a, t, amt, FALSE)
+       \/ \E p \in ParamSet : SetMinDep(p.minDep)
+       \/ NextBlock
     /\ steps' = steps + 1
 
 NextAllMC == Next /\ steps' = steps + 1
